@@ -4,3 +4,19 @@ fixed("C16", "fa8389a", "race/freelist.FreeList.file/R@(*freelist.FreeList).Stor
       "D8b: FreeList.StorageSize read FreeList.file with no lock while ToGC replaces it under flushLock")
 fixed("C16", "7768ca7", "race/store.Store.flushRate/R@(*store.Store).flushTick/W@(*store.Store).Flush",
       "D8c: flushTick read Store.flushRate in its log-call arguments without rateLk while Flush writes it under rateLk")
+fixed("C01", "8305c78", "samevalue-guard/(*Store).Put/return-nil",
+      "D1: Store.Put compared the value with storedVal outside the key-match guard; Put(k2, empty) with another key under the same prefix returned success without storing")
+fixed("C01", "8315bc0", "opaque-value/(*mhprimary.MultihashPrimary).Get/branch-on-value",
+      "D2: mhprimary.Get treated a cached record with nil value as a miss; Put(k,nil) then Get before flush read unwritten bytes and the key was deleted")
+fixed("C01", "8315bc0", "opaque-value/(*cidprimary.CIDPrimary).Get/branch-on-value",
+      "D2: cidprimary.Get treated a cached record with nil value as a miss")
+fixed("C03", "e70cc09", "commit-order/(*store.Store).Close/primary-before-(*index.Index).Close",
+      "D9: Store.Close closed (flushed) the index before the primary; a crash in between left index records naming unwritten primary bytes")
+fixed("C03", "4fe7ccd", "meta-atomic/index.writeHeader/os.WriteFile/not-in-place",
+      "D11: index writeHeader rewrote the .info file in place; a crash after truncation left an empty header and OpenStore failed")
+fixed("C03", "4fe7ccd", "meta-atomic/mhprimary.writeHeader/os.WriteFile/not-in-place",
+      "D11: primary writeHeader rewrote the .info file in place")
+fixed("C13", "5666341", "gc-flush-first/(*primaryGC).gc/flush-before-handover",
+      "D12: primaryGC.gc handed the freelist over before flushing the primary; Put(K,v1) unflushed, Put(K,v2), GC ... relocation => Get(K)=v1")
+fixed("C13", "fa8389a", "freelist-locks/freelist.FreeList.file/R@(*freelist.FreeList).StorageSize/W@(*freelist.FreeList).ToGC",
+      "D8b: FreeList.StorageSize read FreeList.file without flushLock")
